@@ -14,8 +14,9 @@ PUSH_SENDERS = {   # name -> (from attribute or None, class)
 SUBS = {"none": 0, "both": 3, "from": 1, "to": 2}   # QXmppRosterIq::Item::SubscriptionType values: None=0, From=1, To=2, Both=3, Remove=4
 
 
-def item_xml(jid, name, sub, groups):
-    return "<item jid='%s'%s subscription='%s'>%s</item>" % (jid, " name='%s'" % name if name else "", sub, "".join("<group>%s</group>" % g for g in groups))
+def item_xml(jid, name, sub, groups, ask=False, approved=False):
+    return "<item jid='%s'%s subscription='%s'%s%s>%s</item>" % (jid, " name='%s'" % name if name else "", sub, " ask='subscribe'" if ask else "", " approved='true'" if approved else "",
+                                                                 "".join("<group>%s</group>" % g for g in groups))
 
 
 class Model:
@@ -28,14 +29,14 @@ class Model:
         self.presence = collections.defaultdict(set)
 
     def full(self, items):
-        self.roster = {j: (n, s, sorted(g)) for (j, n, s, g) in items}
+        self.roster = {i[0]: (i[1], i[2], sorted(i[3]), bool(i[4]), bool(i[5])) for i in items}
 
     def push(self, items):
-        for (j, n, s, g) in items:
+        for (j, n, s, g, ask, appr) in items:
             if s == "remove":
                 self.roster.pop(j, None)
             else:
-                self.roster[j] = (n, s, sorted(g))
+                self.roster[j] = (n, s, sorted(g), bool(ask), bool(appr))
 
     def pres(self, jid, available):
         b, _, r = jid.partition("/")
@@ -45,14 +46,35 @@ class Model:
             self.presence[b].discard(r)
 
     def view(self):
-        return {j: {"name": n, "sub": SUBS[s], "groups": g} for j, (n, s, g) in self.roster.items()}
+        return {j: {"name": n, "sub": SUBS[s], "groups": g, "ask": "subscribe" if ask else "", "approved": appr} for j, (n, s, g, ask, appr) in self.roster.items()}
 
 
 def gen_items(r, k):
     out = []
     for j in r.sample(POOL, k):
-        out.append((j, r.choice(["", "Nick", "Ünï"]), r.choice(["none", "both", "from", "to"]), r.sample(["Friends", "Work", "Ω"], r.choice([0, 1, 2]))))
+        out.append((j, r.choice(["", "Nick", "Ünï"]), r.choice(["none", "both", "from", "to"]), r.sample(["Friends", "Work", "Ω"], r.choice([0, 1, 2])), r.random() < 0.25, r.random() < 0.25))
     return out
+
+
+def tweak_item(r, m):
+    """an update that changes exactly one field of a contact the model already has (what a server pushes after a rename, a group change,
+    a subscription request or a pre-approval)"""
+    if not m.roster:
+        return None
+    j = r.choice(sorted(m.roster))
+    n, s, g, ask, appr = m.roster[j]
+    f = r.choice(["name", "sub", "groups", "ask", "approved"])
+    if f == "name":
+        n = r.choice([x for x in ["", "Nick", "Ünï", "Other"] if x != n])
+    elif f == "sub":
+        s = r.choice([x for x in ["none", "both", "from", "to"] if x != s])
+    elif f == "groups":
+        g = sorted(set(g) ^ {r.choice(["Friends", "Work", "Ω"])})
+    elif f == "ask":
+        ask = not ask
+    else:
+        appr = not appr
+    return (j, n, s, list(g), ask, appr)
 
 
 def build_case(r, length, exhaustive_word=None):
@@ -86,6 +108,7 @@ def build_case(r, length, exhaustive_word=None):
         m_items = full_items
         steps.extend([wire.A("iq", child="query", optional=True, timeout=400), wire.S(roster_xml)])
         plan.append(("full", full_items, None))
+        m.full(full_items)
 
     login(True, "new")
     plan[-1] = ("full", plan[-1][1], checkpoint())
@@ -100,9 +123,12 @@ def build_case(r, length, exhaustive_word=None):
         if op == "push":
             sname = arg[0] if arg else r.choice(list(PUSH_SENDERS))
             frm, cls = PUSH_SENDERS[sname]
-            kind = arg[1] if arg else r.choice(["add", "update", "remove", "multi"])
-            if kind == "remove":
-                items = [(r.choice(POOL), "", "remove", [])]
+            kind = arg[1] if arg else r.choice(["add", "update", "remove", "multi", "tweak", "tweak"])
+            tw = tweak_item(r, m) if kind == "tweak" and cls == "accept" else None
+            if tw is not None:
+                items = [tw]
+            elif kind == "remove":
+                items = [(r.choice(POOL), "", "remove", [], False, False)]
             elif kind == "multi":
                 items = gen_items(r, 2)
             else:
@@ -110,6 +136,8 @@ def build_case(r, length, exhaustive_word=None):
             pid = "push-%d" % (n[0] + 1)
             steps.append(wire.S("<iq type='set' id='%s'%s><query xmlns='jabber:iq:roster'>%s</query></iq>" % (pid, " from='%s'" % frm if frm is not None else "", "".join(item_xml(*i) for i in items))))
             plan.append(("push", (sname, cls, pid, items), checkpoint()))
+            if cls == "accept":
+                m.push(items)       # (build-time copy of the model: only used to aim 'tweak' pushes at contacts that exist)
         elif op == "presence":
             jid = (arg[0] if arg else r.choice(POOL + [OWN])) + "/" + (arg[1] if arg else r.choice(["phone", "laptop", "ψ"]))
             ptype = arg[2] if arg else r.choice(["available", "available", "unavailable", "error", "probe", "subscribed"])
@@ -135,6 +163,7 @@ def build_case(r, length, exhaustive_word=None):
                 steps.extend(st)
                 steps.extend([wire.A("iq", child="query", optional=True, timeout=400), wire.S("<iq type='result' id='$ID'><query xmlns='jabber:iq:roster'>%s</query></iq>" % "".join(item_xml(*i) for i in full_items))])
                 plan.append(("full-new-session", full_items, checkpoint()))
+                m.full(full_items)
                 sm_on = True
             elif mode == "resumed":
                 steps.extend(wire.relogin(resume="accept", roster=False))
@@ -144,6 +173,7 @@ def build_case(r, length, exhaustive_word=None):
                 steps.extend(wire.relogin(resume="fail" if mode == "new-after-failed-resume" else "none", roster=False))
                 steps.extend([wire.A("iq", child="query", optional=True, timeout=400), wire.S("<iq type='result' id='$ID'><query xmlns='jabber:iq:roster'>%s</query></iq>" % "".join(item_xml(*i) for i in full_items))])
                 plan.append(("full-new-session", full_items, checkpoint()))
+                m.full(full_items)
                 sm_on = mode != "no-sm"
                 if not sm_on:
                     # without stream management there is no <r/> fence: use ping fences from now on
